@@ -1007,7 +1007,12 @@ func (e *Exec) reopen(op Op) {
 	e.closeColl()
 	e.closeStore()
 	if !op.Flag {
-		simrt.Quiesce(20000, 0)
+		simrt.Quiesce(20000, 4)
+		if e.flag("dirCheck") {
+			// everything is closed: only the current data file may be left (the
+			// reopen below would clean up behind a leak)
+			e.checkDirectory("after closing everything, before the reopen")
+		}
 	} else {
 		// reopen at once: asynchronous work of the closed store (the
 		// unlinking of superseded files) may still be in flight
